@@ -1,9 +1,11 @@
 import TLVerif.Codec.Ops.Common
 import TLVerif.Codec.Zero
 import TLVerif.Codec.Registry
-/-! registry / reuse / reset / zero-value ops. The model's readers are functions of the input only, so a
-sequence of decodes into one object (`codec.seq`) is, by construction, the sequence of independent decodes:
-that *is* the statement of C09, and the tie checks the generated code against it. -/
+import TLVerif.Codec.Reuse
+/-! registry / reuse / reset / zero-value ops. `codec.seq` / `codec.reset` thread ONE memory object (`Reuse.Mem`: storage of
+masked-out fields, stale union variants, stale slice tails, dirty state after an error) through the whole history with
+`Reuse.readInto` / `Reuse.resetMem` and print what the encoders see of it (`Reuse.abs`).  That this equals the list of
+independent decodes is the theorem `Props.C09.history_independent`, not the construction of the driver. -/
 namespace TLVerif.Codec
 open TLVerif.Util TLVerif.Prim
 
@@ -12,14 +14,21 @@ def w1both (d : Desc) (fuel ty : Nat) (v : Val) : String :=
   let w1b := if hasBoxed d ty then outBytes (writeTL1 d fuel ty false [] v) else "n/a"
   s!"w1={w1} w1b={w1b}"
 
-def decodeStep (sc : Schema) (ty : Nat) (bare : Bool) (h : String) : String :=
+/-- one decode into the object `old`: the object left behind (also after an error) and the printed observation -/
+def decodeStepM (sc : Schema) (ty : Nat) (bare : Bool) (old : Reuse.Mem) (h : String) : Reuse.Mem × String :=
   match bytesOfHex h with
-  | none => "bad-op"
+  | none => (old, "bad-op")
   | some bs =>
     let fuel := fuelFor sc.desc bs.length
-    match readTL1 sc.cfg sc.desc fuel ty bare [] bs with
-    | .error e => errStr e
-    | .ok (v, rest) => s!"ok {bs.length - rest.length} {w1both sc.desc fuel ty v}"
+    match Reuse.readInto sc.cfg sc.desc fuel ty bare [] old bs with
+    | (m, .error e) => (m, errStr e)
+    | (m, .ok rest) => (m, s!"ok {bs.length - rest.length} {w1both sc.desc fuel ty (Reuse.abs m)}")
+
+def seqM (sc : Schema) (ty : Nat) (bare : Bool) : Reuse.Mem → List String → List String
+  | _, [] => []
+  | old, h :: hs =>
+    let r := decodeStepM sc ty bare old h
+    r.2 :: seqM sc ty bare r.1 hs
 
 def insertSorted (x : String) : List String → List String
   | [] => [x]
@@ -73,15 +82,20 @@ def handleMisc : OpHandler := fun st op args =>
     | none => some "bad-op"
   | "seq", sid :: ty :: _name :: boxed :: hs =>
     match st.lookup sid, ty.toNat? with
-    | some sc, some ty => some (" | ".intercalate (hs.map (decodeStep sc ty (boxed != "1"))))
+    | some sc, some ty =>
+      some (" | ".intercalate (seqM sc ty (boxed != "1") (Reuse.freshMem sc.desc (fuelFor sc.desc 64) ty) hs))
     | _, _ => some "bad-op"
-  | "reset", [sid, ty, _name, _boxed, _h] =>
+  | "reset", [sid, ty, _name, boxed, h] =>
     match st.lookup sid, ty.toNat? with
     | some sc, some ty =>
       let fuel := fuelFor sc.desc 64
       match Z.zeroVal sc.desc fuel ty with
       | none => some "model-err zero"
-      | some z => some ("ok " ++ w1both sc.desc fuel ty z)
+      | some _ =>
+        -- create, decode (errors ignored: the object stays dirty), Reset(), write
+        let m0 := Reuse.freshMem sc.desc fuel ty
+        let m1 := (decodeStepM sc ty (boxed != "1") m0 h).1
+        some ("ok " ++ w1both sc.desc fuel ty (Reuse.abs (Reuse.resetMem sc.desc fuel ty m1)))
     | _, _ => some "bad-op"
   | "z1", [sid, ty, _name] =>
     match st.lookup sid, ty.toNat? with
